@@ -18,7 +18,8 @@ critical path total and marks; the LCD dictionary; column sums (1e-9); and the r
 AArch64 half (`e2e.a64`, `analyseA64`): the same comparison on
 (c) synthetic AArch64 models (c07models.random_model "aarch64" + forms for the mnemonics of dgenc.gen_a64_kernel: register
     forms that the load/store composition completes, own memory entries with and without pre-/post-index), installed as
-    user model `a72` in the private HOME for the duration of the runs; kernels with pre-/post-indexed memory operands,
+    user model `a72` in the private HOME for the duration of the runs; kernels with pre-/post-indexed memory operands
+    (post-indexed by a number and, on the SIMD structure loads/stores, by a REGISTER: `ld1 {v0.2d}, [x1], x2`),
     register lists and ranges, condition codes, prefetch operands, unknown mnemonics, noise lines; AArch64 byte markers
     (`mov x1, #111` + `.byte 213,3,32,31`) and comment markers, `--lines`, `-f`/`--consider-flag-deps`, +- `--ignore-unknown`;
 (d) shipped AArch64 models (tx2, a64fx) restricted to the reachable entries.
@@ -210,7 +211,8 @@ A64_VOCAB = {
     "ldr": [("d", "x"), ("q", "x"), ("x", "x"), ("d", A64_MEM), ("x", A64_MEM)],
     "str": [("d", "x"), ("q", "x"), ("x", "x"), ("d", A64_MEM), ("q", A64_MEM)],
     "ldp": [("d", "d", "x"), ("d", "d", A64_MEM)], "stp": [("d", "d", "x"), ("d", "d", A64_MEM)],
-    "ld1": [("v.d", "v.d", "x")], "st1": [("v.d", "v.d", "x")],
+    "ld1": [("v.d", "v.d", "x"), ("v.d", "x"), ("v.d", A64_MEM)], "st1": [("v.d", "v.d", "x"), ("v.d", "x"), ("v.d", A64_MEM)],
+    "ld1r": [("v.d", "x")], "ld2": [("v.d", "v.d", A64_MEM)],
     "b": [("id",)], "bne": [("id",)], "csel": [("x", "x", "x", "cc")], "prfm": [("prf", "x")],
 }
 
@@ -284,6 +286,10 @@ A64_CHAIN = ["ldr d1, [x2], #8", "fadd d3, d1, d4", "ldr d5, [x2, #16]!", "fmul 
              "zzunknown x2, x9", "ld1 {v0.2d, v1.2d}, [x4], #32", "fmla v2.2d, v0.2d, v1.2d", "st1 {v2.2d - v3.2d}, [x5]",
              "stp d6, d3, [x7, #-16]!", "ldp d8, d9, [x7], #16", "subs x9, x9, #1", "csel x10, x9, x8, ne", "prfm pldl1keep, [x2, #64]",
              "b.ne .L1"]
+# post-indexed by a register: the base is written back by an unknown amount (the write-back edge carries p_index_latency, the
+# store->load tracking loses the base)
+A64_CHAIN_POSTREG = ["str d6, [x7]", "ld1 {v0.2d}, [x7], x9", "fadd d3, d0, d4", "ldr d5, [x7]", "st1 {v2.2d}, [x5], x9", "add x5, x5, #16",
+                     "ld1r {v4.2d}, [x2], x11", "ldr d1, [x2, #8]", "ld1 {v0.2d, v1.2d}, [x4], x9", "fmla v2.2d, v0.2d, v1.2d", "subs x9, x9, #1"]
 
 
 def gen_scaledep_a64(rng):
@@ -305,9 +311,15 @@ def gen_scaledep_a64(rng):
     return lines
 
 
+STRUCT_MNEMONICS = ("ld1", "ld2", "ld3", "ld4", "st1", "st2", "st3", "st4")
+
+
 def glue_domain_a64(parser, line):
     """is the parsed line inside the domain of the AArch64 glue (Model/Glue.lean): every memory operand has no offset or an
-    integer offset, every post-index is a plain number; None = the parser rejects the line"""
+    integer offset, every post-index is a plain number -- or, on the SIMD structure loads/stores (the instructions that
+    allow it), a register: `ld1 {v0.2d}, [x1], x2`; None = the parser rejects the line.
+    (Elsewhere a register post-index stays outside: the parser model does not keep WHICH register it is, so two memory
+    DESTINATIONS that differ in it only would be equal in the model and unequal in Python -- `is_memstore`.)"""
     try:
         f = parser.parse_line(line, 1)
     except Exception:  # noqa
@@ -318,7 +330,9 @@ def glue_domain_a64(parser, line):
             if off is not None and not (type(off).__name__ == "ImmediateOperand" and isinstance(off.value, int)):
                 return False
             po = o.post_indexed
-            if po is not False and not (isinstance(po, dict) and set(po) == {"value"} and isinstance(po["value"], int)):
+            by_register = (isinstance(po, dict) and set(po) == {"identifier"} and set(po["identifier"]) == {"name"}
+                           and (f.mnemonic or "").lower()[:3] in STRUCT_MNEMONICS)
+            if po is not False and not by_register and not (isinstance(po, dict) and set(po) == {"value"} and isinstance(po["value"], int)):
                 return False
             if not isinstance(o.scale, int):
                 return False
@@ -334,8 +348,12 @@ def body_for_a64(rng, model, parser):
     elif kind == "scaledep":
         body = gen_scaledep_a64(rng)
     elif kind == "chain":
-        a = rng.randrange(0, 6)
-        body = A64_CHAIN[a:a + rng.randrange(3, 9)]
+        if rng.random() < 0.4:
+            a = rng.randrange(0, 5)
+            body = A64_CHAIN_POSTREG[a:a + rng.randrange(3, 8)]
+        else:
+            a = rng.randrange(0, 6)
+            body = A64_CHAIN[a:a + rng.randrange(3, 9)]
     else:
         body = M.instructions_for(rng, "aarch64", model, rng.randint(2, 8))
         if kind == "mixed":
@@ -345,7 +363,7 @@ def body_for_a64(rng, model, parser):
     for b in body:
         d = glue_domain_a64(parser, b)
         if d is False:
-            continue                         # identifier / float offset, symbolic post-index: outside the glue's domain
+            continue                         # identifier / float offset, symbolic post-index on a plain load/store: outside the glue's domain
         if d is None and rng.random() < 0.97:
             continue
         out.append(b)
@@ -551,6 +569,9 @@ def compare_case(ctx, c, reply, st):
         if "performs_load" in fl or "performs_store" in fl:
             st["memory_lines"] += 1
     st["lines"] += len(res["kernel"])
+    st["postreg_lines"] = st.get("postreg_lines", 0) + sum(
+        1 for ins in res["kernel"] for o in (ins.operands or [])
+        if type(o).__name__ == "MemoryOperand" and isinstance(o.post_indexed, dict) and "value" not in o.post_indexed)
     if text != res["text"]:
         d = first_text_diff(text, res["text"])
         if c.get("opt") and totals_tie_only(text, res["text"], m, im):
@@ -841,9 +862,10 @@ def run_e2e_correspondence(ctx, volume, shipped=("zen2", "spr"), shipped_volume=
                 total[k] += v
         ctx.cov[("e2e_opt" if opt else "e2e") + ("" if x86 else "_a64")] = dict(st)
         ctx.log("e2e %s%s (file text -> report inside the model): %d runs, %d analyses compared (%d lines, %d memory-composed or load/store, "
-                "%d unknown, %d edges, %d cycles), %d reports byte-identical, %d agreed error outcomes, %d disagreements"
+                "%d unknown, %d post-indexed by a register, %d edges, %d cycles), %d reports byte-identical, %d agreed error outcomes, %d disagreements"
                 % (isa, " optimal scheduling" if opt else "", st["runs"], st["compared"], st["lines"], st["memory_lines"],
-                   st["unknown_lines"], st["edges"], st["cycles"], st["reports_equal"], st["errors_agreed"], st["disagreements"]))
+                   st["unknown_lines"], st.get("postreg_lines", 0), st["edges"], st["cycles"], st["reports_equal"], st["errors_agreed"],
+                   st["disagreements"]))
         if opt:
             ctx.log("    pressures: %d runs judged (%d instruction lines, %d micro-ops), balanced away from uniform in %d, moved again by the "
                     "second pass in %d; first pass inadmissible %d (+ %d on lines with a throughput multiplier < 1: finding, counted), "
